@@ -528,8 +528,18 @@ func (s *sim) dial(ctx context.Context, target string, dopts ...grpc.DialOption)
 //go:norace
 func (s *sim) dialConfig(dopts []grpc.DialOption, want *pb.ApiConfig, who string) {
 	js, ok := defaultServiceConfigOf(dopts)
-	if !ok || js == "" {
+	if !ok {
 		s.nDialCfgUnknown++
+		return
+	}
+	if js == "" {
+		// readable dial options that carry no default service config at all: gRPC has
+		// no other way to make a channel use the grpc_gcp balancer with a
+		// configuration, so this pool runs without the one the instance was given
+		s.nDialCfgJudged++
+		if s.cfgBad == "" {
+			s.cfgBad = who + "a pool was dialled with dial options that carry no service config: it cannot run with the channel-pool configuration this instance was given"
+		}
 		return
 	}
 	var sc struct {
